@@ -63,11 +63,6 @@ package cty
 //@   frame_only
 //@   writes cty.tupleElementIterator it
 //
-//@ func cty.testConformance
-//@   tags C20
-//@   frame_only
-//@   writes Slice errs
-//
 //@ func (*cty.Type).UnmarshalJSON
 //@   tags C20
 //@   frame_only
